@@ -8,7 +8,10 @@
  *   wsclose <c|s> <stream-hex> <cut>                  stream[0..cut) is received in one chunk; then, with stream[cut..)
  *                                                     available on the socket, the application closes the session:
  *                                                     coap_ws_close() sends its Close frame and drains the socket for the
- *                                                     peer's.  Output: n=.. drain rc=<recv_close> left=<bytes not read>
+ *                                                     peer's.  Output: n=.. drain rc=<recv_close> left=<bytes not read> rounds=<select() calls> calls=<coap_ws_read calls>
+ *   wsself <c|s> <stream-hex>                         the stream is received in one chunk; if the reader closes the session by
+ *                                                     itself (refusal 1002/1003/1009, Close frame) with the handshake done:
+ *                                                     n=.. self rc=<recv_close> left=<bytes of the chunk never read>, else noself
  *   consts                                            the constants the model depends on
  *
  * A "chunk" is what the transport has available when the read event fires.  coap_read_session() is
@@ -20,6 +23,7 @@
 #include "coap3/coap_libcoap_build.h"
 #include "hcommon.h"
 #include <sys/socket.h>
+#include <sys/select.h>
 #include <netinet/in.h>
 #include <arpa/inet.h>
 #include <fcntl.h>
@@ -98,6 +102,17 @@ static int event_handler(coap_session_t *session, const coap_event_t event) {
 static void nack_handler(coap_session_t *session, const coap_pdu_t *sent, const coap_nack_reason_t reason, const coap_mid_t mid) {
   (void)session; (void)sent; (void)mid;
   g_nack = (int)reason;
+}
+
+/* ---- coap_ws_close()'s drain loop: select() is wrapped (-Wl,--wrap=select) to count its rounds and how many of
+ * them found the socket readable (= the coap_ws_read() calls of the drain; nothing else in a run calls select()) ---- */
+static int g_sel_rounds, g_sel_ready;
+int __real_select(int n, fd_set *r, fd_set *w, fd_set *e, struct timeval *tv);
+int __wrap_select(int n, fd_set *r, fd_set *w, fd_set *e, struct timeval *tv) {
+  int res = __real_select(n, r, w, e, tv);
+  g_sel_rounds++;
+  if (res > 0) g_sel_ready++;
+  return res;
 }
 
 /* ---- chunk feeder / write recorder ---- */
@@ -206,6 +221,7 @@ static int parse_cuts(char *w, size_t total, size_t *cuts, int max) {
 
 #define MAX_CUTS 1000000
 static int g_close_after_first;   /* wsclose: 1 = only the first chunk is fed, then coap_ws_close() with the rest available */
+static int g_self_close;          /* wsself: one chunk; report what the reader's own coap_ws_close() (refusal / Close frame) left */
 
 static void run_stream(coap_proto_t proto, int server_side, unsigned long csm_max, const uint8_t *stream, size_t len,
                        const size_t *cuts, int ncuts) {
@@ -216,6 +232,7 @@ static void run_stream(coap_proto_t proto, int server_side, unsigned long csm_ma
   g_out_len = 0; out_reserve(64); g_out[0] = 0;
   g_npdu = 0; g_nack = -1; g_nev = 0; g_closed = 0; g_reads = 0; g_written = 0;
   g_chunk = NULL; g_chunk_left = 0;
+  g_sel_rounds = 0; g_sel_ready = 0;
 
   coap_context_set_csm_max_message_size(g_ctx, csm_max ? (uint32_t)csm_max : (uint32_t)COAP_DEFAULT_MAX_PDU_RX_SIZE);
   s = coap_new_client_session(g_ctx, NULL, &g_dst, proto);
@@ -272,8 +289,21 @@ static void run_stream(coap_proto_t proto, int server_side, unsigned long csm_ma
       coap_ws_close(s);
       coap_lock_unlock(g_ctx);
       scribble_stack();
-      printf("n=%d%s drain rc=%d left=%lu", g_npdu, g_out, s->ws ? (int)s->ws->recv_close : -1, (unsigned long)g_chunk_left);
+      printf("n=%d%s drain rc=%d left=%lu rounds=%d calls=%d", g_npdu, g_out, s->ws ? (int)s->ws->recv_close : -1,
+             (unsigned long)g_chunk_left, g_sel_rounds, g_sel_ready);
     }
+    coap_session_release(s);
+    drain_accept();
+    return;
+  }
+
+  if (g_self_close) {
+    /* closed by the reader itself with the handshake done: coap_ws_close() ran inside coap_ws_read() */
+    if (g_closed && !stuck && s->ws && s->ws->up)
+      printf("n=%d%s self rc=%d left=%lu rounds=%d calls=%d", g_npdu, g_out, (int)s->ws->recv_close, (unsigned long)g_chunk_left,
+             g_sel_rounds, g_sel_ready);
+    else
+      printf("n=%d%s noself", g_npdu, g_out);
     coap_session_release(s);
     drain_accept();
     return;
@@ -326,6 +356,10 @@ static void step_inner(char *line) {
   if (g_close_after_first) {
     if (strchr(w[3], ',') || !strcmp(w[3], "-")) { printf("bad-op"); return; }
     w[0] = (char *)"ws";
+  }
+  g_self_close = n == 3 && !strcmp(w[0], "wsself");
+  if (g_self_close) {
+    w[0] = (char *)"ws"; w[3] = (char *)"-"; n = 4;
   }
   if (n == 4 && (!strcmp(w[0], "tcp") || !strcmp(w[0], "ws"))) {
     size_t len; uint8_t *b = h_unhex(w[2], &len);
